@@ -78,13 +78,23 @@ class VQueue:
     _ids = 0
 
     def __init__(self, world: 'VWorld', name: str, maxsize: int = 0):
-        self.world = world
+        # like VContext, a queue does not remember the world it was created in: code under test
+        # may legitimately keep a Manager queue (inside a cached executor, say) across runs
         self.name = name
         self.capacity = maxsize if maxsize and maxsize > 0 else None
         self.buf: collections.deque = collections.deque()
         VQueue._ids += 1
         self.qid = VQueue._ids
         world.queues[self.qid] = self
+
+    @property
+    def world(self):
+        w = CUR
+        if self.qid not in w.queues:      # a queue carried over from an earlier execution
+            w.queues[self.qid] = self
+            w.queue_order.append(self)
+            self.buf.clear()
+        return w
 
     def __reduce__(self):
         return (_queue_lookup, (self.qid,))
